@@ -6,6 +6,7 @@
 # *  switch from deprecated string module to string methods
 # *  use PEP 8 style
 
+import re
 import sys
 
 
@@ -122,18 +123,24 @@ class XMLWriter(object):
     def _indent(self):
         self._write(self.indent * (len(self.stack) * 2))
 
+    # characters XML 1.0 can not carry at all, not even as a character reference
+    _illegal_xml = re.compile('[\x00-\x08\x0b\x0c\x0e-\x1f\ufffe\uffff]')
+
     def _escape_cont(self, text):
         if text is None:
             return None
+        text = self._illegal_xml.sub(' ', text)
+        # a literal CR would be turned into LF by every XML parser
         return text.replace("&", "&amp;")\
-            .replace("<", "&lt;").replace(">", "&gt;")
+            .replace("<", "&lt;").replace(">", "&gt;").replace("\r", "&#13;")
 
     def _escape_attr(self, text):
         if text is None:
             return None
+        text = self._illegal_xml.sub(' ', text)
         return text.replace("&", "&amp;") \
             .replace("'", "&apos;").replace("<", "&lt;")\
-            .replace(">", "&gt;")
+            .replace(">", "&gt;").replace("\r", "&#13;").replace("\n", "&#10;").replace("\t", "&#9;")
 
     def _write(self, strval):
         # self.out.write(strval.encode(self.encoding))
